@@ -29,7 +29,7 @@ UTC = timezone.utc
 NAIVE = -1000
 SIGTYPE = {'digest': 0, 'rsa': 1, 'ecdsa': 3, 'hmac': 4, 'ed25519': 5, 'syn': pk.SynSigner.SIG_TYPE}
 SUBJ = ['ec256', 'ec384', 'rsa', 'ed25519']
-FN_NAME = {'self_sign': 'self_sign', 'sign_req': 'sign_req', 'derive': 'derive_cert'}
+FN_NAME = {'self_sign': 'self_sign', 'sign_req': 'sign_req', 'derive': 'derive_cert', 'new_cert': 'new_cert'}
 T0 = datetime(1970, 1, 1)
 
 
@@ -59,17 +59,33 @@ class Clock:
         sv2.datetime, sv2.timestamp = self.saved
 
 
-def start_datetime(q):
-    base = T0 + timedelta(days=q['start']['d'], seconds=q['start']['s'])
-    if q['tz'] == NAIVE:
+def in_zone(inst, tz):
+    base = T0 + timedelta(days=inst['d'], seconds=inst['s'])
+    if tz == NAIVE:
         return base
-    return base.replace(tzinfo=UTC).astimezone(timezone(timedelta(minutes=q['tz'])))
+    return base.replace(tzinfo=UTC).astimezone(timezone(timedelta(minutes=tz)))
+
+
+def start_datetime(q):
+    return in_zone(q['start'], q['tz'])
+
+
+def end_datetime(q):
+    """new_cert: the end instant (start + lifetime) expressed in its own zone tz2"""
+    t = T0 + timedelta(days=q['start']['d'], seconds=q['start']['s'] + q['dur'])
+    return in_zone({'d': (t - T0).days, 's': (t - T0).seconds}, q['tz2'])
+
+
+def _zc(tz):
+    return 'naive' if tz == NAIVE else 'utc' if tz == 0 else 'aware-non-utc'
 
 
 def zone_class(q):
-    if q['fn'] != 'derive':
-        return 'clock'
-    return 'naive' if q['tz'] == NAIVE else 'utc' if q['tz'] == 0 else 'aware-non-utc'
+    if q['fn'] == 'derive':
+        return _zc(q['tz'])
+    if q['fn'] == 'new_cert':
+        return '%s-start-%s-end' % (_zc(q['tz']), _zc(q['tz2']))
+    return 'clock'
 
 
 def key_name_bytes(q, rng):
@@ -83,15 +99,52 @@ def key_name_bytes(q, rng):
     return cs
 
 
+UNRESERVED = frozenset(b'ABCDEFGHIJKLMNOPQRSTUVWXYZabcdefghijklmnopqrstuvwxyz0123456789-._~')
+SHORTHAND = {54: 'v', 50: 'seg', 52: 'off', 56: 't', 58: 'seq'}
+
+
+def uri_escape(value, rng, extra=0.0):
+    """NDN URI spelling of value bytes: unreserved characters literally (or, with probability `extra`, escaped as
+    well - also legal), everything else as %XX in either hex case."""
+    out = []
+    for c in value:
+        if c in UNRESERVED and rng.random() >= extra:
+            out.append(chr(c))
+        else:
+            out.append(('%%%02X' if rng.random() < 0.7 else '%%%02x') % c)
+    return ''.join(out)
+
+
 def issuer_arg(q, rng):
-    """-> (argument for derive_cert, expected component bytes)"""
-    c = q['issuer']
-    if c['t'] == 8 and rng.random() < 0.8:
-        txt = ''.join(rng.choice('abcdefghijklmnopqrstuvwxyz0123456789') for _ in range(c['l']))
-        if txt:
-            return txt, b'\x08' + st.write_var(c['l']) + txt.encode()
-    b = pk.comp_bytes(c, rng)
-    return b, b
+    """The issuer id as the caller writes it. The component is chosen first and the text is written from it by
+    the NDN URI rules, so the expectation does not come from Component.from_str.
+    -> (argument for derive_cert, expected component bytes)"""
+    c, form = q['issuer'], q['idform']
+    t, n = c['t'], c['l']
+    if form == 'plain':
+        value = bytes(rng.choice(b'abcdefghijklmnopqrstuvwxyzABCDEFGHIJKLMNOPQRSTUVWXYZ0123456789') for _ in range(n))
+        if n >= 3 and rng.random() < 0.5:
+            value = value[:1] + bytes([rng.choice(b'-._~')]) + value[2:]
+    elif form == 'short':
+        value = st.uint_bytes(pk.uint_of_width(n, rng))
+    else:
+        value = rng.randbytes(n)
+        if form == 'escaped' and all(b in UNRESERVED for b in value):
+            value = bytes([rng.choice(b' /%=:\x00\xc3')]) + value[1:]
+        if value and all(b == 0x2e for b in value):
+            value = b'x' + value[1:]       # names made of periods only have their own URI rule (C09's business)
+    comp = st.write_var(t) + st.write_var(n) + value
+    if form == 'comp':
+        return comp, comp
+    if form == 'plain':
+        return value.decode(), comp
+    if form == 'short':
+        return '%s=%d' % (SHORTHAND[t], int.from_bytes(value, 'big')), comp
+    if form == 'typed':
+        return '%d=%s' % (t, uri_escape(value, rng, 0.2)), comp
+    if form == 'escaped':
+        return ('' if t == 8 else '%d=' % t) + uri_escape(value, rng, 0.4), comp
+    raise MachineryError('unknown issuer-id form %r' % form)
 
 
 def issue(q, rng, pool, target=True, live=None):
@@ -116,9 +169,12 @@ def issue(q, rng, pool, target=True, live=None):
                 b.cert_name, w = sv2.self_sign(b.keyname, b.pub, b.rec)
             elif q['fn'] == 'sign_req':
                 b.cert_name, w = sv2.sign_req(b.keyname, b.pub, b.rec)
+            elif q['fn'] == 'new_cert':
+                b.issuer_arg, b.issuer_bytes = issuer_arg(dict(q, idform='comp'), rng)
+                b.cert_name, w = sv2.new_cert(b.keyname, b.issuer_arg, b.pub, b.rec, start_datetime(q), end_datetime(q))
             else:
-                arg, b.issuer_bytes = issuer_arg(q, rng)
-                b.cert_name, w = sv2.derive_cert(b.keyname, arg, b.pub, b.rec, start_datetime(q), q['dur'])
+                b.issuer_arg, b.issuer_bytes = issuer_arg(q, rng)
+                b.cert_name, w = sv2.derive_cert(b.keyname, b.issuer_arg, b.pub, b.rec, start_datetime(q), q['dur'])
             b.wire = bytes(w)
         except MachineryError:
             raise
@@ -147,7 +203,9 @@ def field_checks(q, b, lay):
     if comps[:-2] != b.keyname:
         bad.append(('name/key-name', 'certificate name does not start with the key name'))
     elif comps[-2:-1] != [b.issuer_bytes]:
-        bad.append(('name/issuer-id', 'issuer-id component %s, expected %s' % (comps[-2].hex(), b.issuer_bytes.hex())))
+        bad.append(('name/issuer-id/%s' % (q.get('idform', 'comp') if q['fn'] == 'derive' else 'fixed' if q['fn'] != 'new_cert' else 'comp'),
+                    'issuer id given as %r: the certificate has component %s, requested %s' % (
+                        getattr(b, 'issuer_arg', None), comps[-2].hex(), b.issuer_bytes.hex())))
     elif comps[-1] != ver:
         bad.append(('name/version', 'version component %s, expected %s' % (comps[-1].hex(), ver.hex())))
     if [bytes(c) for c in b.cert_name] != comps:
@@ -293,17 +351,17 @@ def rand_instant(rng, max_year):
 
 
 def rand_req(rng, pool):
-    fn = rng.choice(['derive', 'derive', 'derive', 'self_sign', 'sign_req'])
+    fn = rng.choice(['derive', 'derive', 'derive', 'new_cert', 'new_cert', 'self_sign', 'sign_req'])
     subj = rng.choice(SUBJ)
     ident = pk.rand_name(rng, 5)[:5] or [{'t': 8, 'l': 2}]
     keyname = ident + [{'t': 8, 'l': 3}, {'t': 8, 'l': 8}]
     sg = dict(pk.NO_SG)
     k = rng.choice(['ecdsa', 'ecdsa', 'rsa', 'ed25519', 'hmac', 'digest', 'syn', 'syn'])
-    if fn != 'derive':
+    if fn in ('self_sign', 'sign_req'):
         k = {'ec256': 'ecdsa', 'ec384': 'ecdsa', 'rsa': 'rsa', 'ed25519': 'ed25519'}[subj]
     sg.update(kind=k, st=True)
     if k == 'ecdsa':
-        sg['r'] = {'ec256': 72, 'ec384': 104}[subj] if fn != 'derive' else rng.choice([72, 104, 140])
+        sg['r'] = {'ec256': 72, 'ec384': 104}[subj] if fn in ('self_sign', 'sign_req') else rng.choice([72, 104, 140])
         sg['a'] = -1
     elif k == 'syn':
         sg['r'] = rng.choice([1, 8, 33, 72, 104, 140, 200, 252])
@@ -322,9 +380,16 @@ def rand_req(rng, pool):
     dur = rng.choice([0, 1, 59, 60, 3600, 86399, 86400, 86401, 2 * 86400, 365 * 86400, 366 * 86400, 7305 * 86400,
                       rng.randrange(7305 * 86400)])
     tz = rng.choice([NAIVE, NAIVE, 0, 0, 60, 330, -480, 345, 840, -720, rng.randrange(-720, 841)])
-    issuer = rng.choice([{'t': 8, 'l': rng.randint(1, 12)}, {'t': 8, 'l': 0}, pk.rand_comp(rng, False)])
-    return {'fn': fn, 'subj': subj, 'keyname': keyname, 'publen': len(pool.pub_der(subj)), 'issuer': issuer, 'sg': sg,
-            'clock': clock, 'start': start, 'dur': dur, 'tz': tz}
+    zones = [NAIVE, NAIVE, 0, 0, 60, 330, -480, 345, 840, -720, rng.randrange(-720, 841)]
+    tz2 = rng.choice(zones) if fn == 'new_cert' else tz
+    issuer = rng.choice([{'t': 8, 'l': rng.randint(1, 12)}, {'t': 8, 'l': 0}, pk.rand_comp(rng, False),
+                         {'t': rng.choice(sorted(SHORTHAND)), 'l': rng.choice([1, 2, 4, 8])}])
+    issuer['l'] = min(issuer['l'], 40)
+    forms = ['comp', 'typed'] + (['escaped'] if issuer['l'] > 0 else []) + (['plain'] * 2 if issuer['t'] == 8 and issuer['l'] > 0 else []) \
+        + (['short'] * 2 if issuer['t'] in SHORTHAND and issuer['l'] in (1, 2, 4, 8) else [])
+    idform = rng.choice(forms) if fn == 'derive' else 'comp'
+    return {'fn': fn, 'subj': subj, 'keyname': keyname, 'publen': len(pool.pub_der(subj)), 'issuer': issuer, 'idform': idform,
+            'sg': sg, 'clock': clock, 'start': start, 'dur': dur, 'tz': tz, 'tz2': tz2}
 
 
 def record(ctx, q, pool, exp=None):
@@ -434,7 +499,7 @@ def run_history(ctx, kind, init, steps, shapes, pool, stage):
         else:
             fn = stp[1]
             q = {'fn': fn, 'subj': 'ec256', 'keyname': [{'t': 8, 'l': 3}, {'t': 8, 'l': 3}, {'t': 8, 'l': 8}],
-                 'publen': len(pool.pub_der('ec256')), 'issuer': {'t': 8, 'l': 3}, 'sg': live.sg(shapes[cur]),
+                 'publen': len(pool.pub_der('ec256')), 'issuer': {'t': 8, 'l': 3}, 'idform': 'plain', 'tz2': NAIVE, 'sg': live.sg(shapes[cur]),
                  'clock': {'d': 20000 + len(ev), 's': 3600, 'ms': 5}, 'start': {'d': 19000, 's': 0}, 'dur': 86400, 'tz': NAIVE}
             b = issue(q, ctx.rng, pool, target=False, live=(live.obj, names[cur]))
             if b.rec.actual is not None and q['sg']['kind'] == 'ecdsa':
@@ -686,11 +751,13 @@ def report_rejected(ctx, recs, rejected, stage):
 
 
 def nontrivial(q):
-    if q['sg']['a'] < q['sg']['r'] or (q['fn'] == 'derive' and q['tz'] not in (NAIVE, 0)):
+    if q['sg']['a'] < q['sg']['r'] or (q['fn'] in ('derive', 'new_cert') and (q['tz'] not in (NAIVE, 0) or q['tz2'] != q['tz'])):
+        return True
+    if q['fn'] == 'derive' and q['idform'] in ('typed', 'escaped', 'short'):
         return True
     if q['clock']['d'] < 50:
         return True
-    if q['fn'] == 'derive':
+    if q['fn'] in ('derive', 'new_cert'):
         a = T0 + timedelta(days=q['start']['d'], seconds=q['start']['s'])
         e = a + timedelta(seconds=q['dur'])
         return a.year != e.year or (a.month, a.day) == (2, 29) or (e.month, e.day) == (2, 29)
@@ -726,7 +793,8 @@ def replay(ctx, path):
         lay = pk.layout(b.wire)
         print('certificate (%d bytes): %s' % (len(b.wire), b.wire.hex()))
         print('NotBefore', bytes(val(b.wire, find(lay, 254)[0])), 'NotAfter', bytes(val(b.wire, find(lay, 255)[0])))
-        if q['fn'] == 'derive':
+        if q['fn'] in ('derive', 'new_cert'):
+            print('issuer id given as %r' % (getattr(b, 'issuer_arg', None),))
             print('requested start', start_datetime(q).isoformat(), '(= %s UTC)' % sv2_date(q['start']).isoformat(), 'lifetime', q['dur'], 's')
     before = len(ctx.violations)
     check_issued(ctx, q, None, b, pool, 'replay')
